@@ -10,7 +10,7 @@ open Finset BigOperators Matrix
 
 set_option linter.unusedSectionVars false
 
-namespace GT
+namespace GT.Diag
 
 variable {K : Type*} [Field K] [LinearOrder K] {n : ℕ}
 
@@ -232,4 +232,4 @@ theorem sphereThrough_equidistant (r : K → K) (pts : Fin (d + 1) → Fin d →
 
 end sphere
 
-end GT
+end GT.Diag
